@@ -7,7 +7,7 @@ PROPS = {
         "level": "model_checking",
         "rule": "every schedule (preemption bound 2 quick / 3 thorough) of 2-3 client threads + reader (+ clock tick) "
                 "through the real limiter middleware; every Inc sequence to depth 5/6 over 3 addresses x 3 time steps; scenarios also cover one address spelt in several ways, IPv4-mapped addresses, overlapping white-list blocks, an X-Forwarded-For list, the limiter log file",
-        "assumptions": ["goroutines are serialised by the vrt scheduler; scheduling points at mutex operations and harness request boundaries",
+        "assumptions": ["an X-Forwarded-For list names the client in its first entry (as the header is defined); addresses are compared as addresses, not as text", "goroutines are serialised by the vrt scheduler; scheduling points at mutex operations and harness request boundaries",
                         "data races are decided by a vector-clock detector on rewritten struct-field accesses",
                         "porcupine v1.3.0 decides linearizability of each recorded history"],
     },
